@@ -131,7 +131,8 @@ EXTRA = ["a = R'\\x'", "a = bR'\\x\\u'", "a = '\\x41\\u0041\\N{DASH}'", "a = rb'
          'def g():\n    yield from a', 'def g(): return (yield)', 'async def g():\n    async for a in b: pass\n    async with d: pass',
          'a = {**b}', 'a = {*b}', 'a = {b: c, **d}', 'a = {b for b in c}', 'a = {b: c for b in d}', 'a = b[1:2, ::3]', 'a = b[...]',
          'assert a, b', 'raise a from b', 'a = b < c < d', 'a = b if c else d', 'a = b @ c', 'a @= b', 'def g(a, /, b): pass',
-         'x = lambda a, /: 0', 'def o():\n    a = 1\n    def i():\n        nonlocal a', 'a = b = c', 'a: int = b',
+         'x = lambda a, /: 0', 'def o():\n    a = 1\n    def i():\n        nonlocal a', 'def o(a):\n    def i():\n        nonlocal a',
+         'def o(b, a=1):\n    class K:\n        def i(self):\n            nonlocal a', 'a = b = c', 'a: int = b',
          'try: pass\nexcept a: pass\nexcept: pass\nelse: pass', 'while a:\n    if b: continue\n    break\nelse: pass',
          'with a, b as c: pass', 'a = not b', 'a = (yield)', 'a = await b', 'a = [b async for b in c]', 'return', 'a = -b ** -c',
          'a, b = c', '(a, b) = c', '[a, b] = c', 'a.b = c', 'a[b] = c', 'for a.b in c: pass', 'for a[0] in c: pass',
